@@ -22,7 +22,13 @@ var K = func() []string {
 // V is the value alphabet (the empty value is a legal value and must not read as "absent").
 var V = []string{"", "x", "y"}
 
-func hx(s string) string { return hex.EncodeToString([]byte(s)) }
+// hx renders a key or value in hex; the empty string is written ” so that it stays visible.
+func hx(s string) string {
+	if s == "" {
+		return "''"
+	}
+	return hex.EncodeToString([]byte(s))
+}
 
 // ---------------------------------------------------------------------------------------------
 // abstract store
